@@ -46,13 +46,18 @@ type chk struct {
 }
 
 type recorder struct {
-	mu   sync.Mutex
-	reqs []chk
+	mu    sync.Mutex
+	reqs  []chk
+	grant string // the ONE database the current caller may read ("" = allowedDB)
 }
 
 func (r *recorder) IsRBACEnabled() bool { return true }
 func (r *recorder) decide(q *auth.PermissionCheckRequest) *auth.PermissionCheckResult {
-	ok := q.TokenInfo != nil && q.Permission == "read" && q.Database == allowedDB
+	g := r.grant
+	if g == "" {
+		g = allowedDB
+	}
+	ok := q.TokenInfo != nil && q.Permission == "read" && q.Database == g
 	r.mu.Lock()
 	r.reqs = append(r.reqs, chk{q.Database, q.Measurement, q.Permission, ok})
 	r.mu.Unlock()
